@@ -386,6 +386,38 @@ pub fn run(ctx: &Ctx, st: &mut Stats) {
             st.sample(|| json!(c));
         }
     }
+    // every "human" value: all decimals with at most two places inside each range (elevation: the hundredths that
+    // look like minutes or common fractions, for every whole metre), as a number and as the text a user would type
+    // ("5.30", "-4.3"): what goes in must come out
+    {
+        let mut idx3 = 0u64;
+        for t in tys.iter() {
+            let (lo, hi) = ((t.lo * 100.0).ceil() as i64, (t.hi * 100.0).floor() as i64);
+            let sparse = hi - lo > 200_000;
+            for k in lo..=hi {
+                if sparse && ![0, 1, 5, 10, 15, 25, 30, 45, 50, 59, 60, 75, 99].contains(&(k.rem_euclid(100))) {
+                    continue;
+                }
+                idx3 += 1;
+                if !ctx.mine(idx3) {
+                    continue;
+                }
+                let text = format!("{}{}.{:02}", if k < 0 { "-" } else { "" }, k.abs() / 100, k.abs() % 100);
+                let x: f64 = text.parse().unwrap();
+                let c = Case { ty: t.name.into(), route: "value".into(), value: Some(X(x)), text: None };
+                check(ctx, st, &c);
+                if t.from_str.is_some() {
+                    let short = format!("{x}");
+                    for tx in [text.clone(), short] {
+                        let c = Case { ty: t.name.into(), route: "text".into(), value: None, text: Some(tx) };
+                        check(ctx, st, &c);
+                    }
+                }
+                st.nontrivial_key(x.to_bits() ^ hash64(t.name) ^ 0x77);
+            }
+        }
+        st.add("two_decimal_values_swept(all types)", idx3);
+    }
     // seeded random values in / just out of range / anywhere, random bit patterns
     let n = ctx.quota(600_000, 60_000_000);
     for _ in 0..n {
